@@ -281,6 +281,8 @@ func runC08(c *Check, a *Analysis) {
 		c.Ob("R-WG-COUNT-AT-QUEUE", sc.key(fn, "Done without Add in the worker"), fn.Pos(), nAdd == 0, ifs(nAdd != 0, "the worker adds itself to the wait group when it starts running: a task that is still queued is not counted"))
 	}
 
+	ruleWGDiscipline(c, a, "R-WG-COUNT-AT-QUEUE")
+
 	// ---- R-DROP-AND-CONTINUE
 	c.Rule("R-DROP-AND-CONTINUE", "serve loops do not let a ServeRequest error end the connection; the client reader returns right after a header error without touching a call", 3)
 	sr := p.Fn("(*Server).ServeRequest")
